@@ -1080,6 +1080,32 @@ func genC09(w *bufio.Writer, g *gen, n int) {
 	}
 }
 
+// C14 at the level of the binary: a plain run fills the cache, then the same request (or none: the default task) with
+// --force / -f (± --json, --quiet, --debug), then a plain run again; nothing fails
+func genC14(w *bufio.Writer, g *gen, n int) {
+	forceSets := [][]string{{"force"}, {"f"}, {"force", "json"}, {"force", "quiet"}, {"f", "j"}, {"force", "debug"}}
+	for i := 0; i < n; i++ {
+		c := g.newCase(specOpts{maxTasks: 4, minCmds: 1, maxCmds: 3, failPct: 0, wantDefault: 2, maxVars: 1}, wValid, g.maybeLinked())
+		cwd := cwds[g.rng.Intn(len(cwds))]
+		args := g.argsFor(c.tasks)
+		if len(args) == 1 && args[0] == "nosuch" {
+			args = nil
+		}
+		if i%2 == 0 {
+			args = nil // no task names: the default task when there is one
+		}
+		c.steps = []step{
+			{cwd: cwd, flags: nil, args: args},
+			{cwd: cwds[g.rng.Intn(len(cwds))], flags: forceSets[g.rng.Intn(len(forceSets))], args: args},
+			{cwd: cwd, flags: runFlagSets[g.rng.Intn(3)], args: args},
+		}
+		if g.chance(1, 3) {
+			c.steps = append(c.steps, step{cwd: cwd, flags: forceSets[g.rng.Intn(len(forceSets))], args: args})
+		}
+		fmt.Fprintln(w, c.encode())
+	}
+}
+
 // the exhaustive part of C09: two tasks x two commands, EVERY subset of the four commands failing, the second task
 // depending on the first or independent of it, x {plain, --quiet, --json, --force}, each followed by a second run
 func genC09Exhaustive(w *bufio.Writer, g *gen) {
@@ -1373,6 +1399,12 @@ func cliGen(w *bufio.Writer, a map[string]string) {
 			genC19Exhaustive(w, g, []int{wValid, wSyntax, wDup})
 			genC19Links(w, g, 1)
 			genC19Random(w, g, 300)
+		}
+	case "C14":
+		if thorough {
+			genC14(w, g, 1200)
+		} else {
+			genC14(w, g, 160)
 		}
 	default: // C20
 		if thorough {
